@@ -181,7 +181,9 @@ func (p *Parser) attributes() []Attribute {
 					break
 				}
 			}
-			p.expect(TokenRightParen)
+			if err := p.expectErr(TokenRightParen); err != nil {
+				p.errors = append(p.errors, *err)
+			}
 		}
 
 		attrs = append(attrs, attr)
@@ -373,7 +375,9 @@ func (p *Parser) varDecl(attrs []Attribute) (*VarDecl, *ParseError) {
 				accessMode = p.advance().Lexeme
 			}
 		}
-		p.expect(TokenGreater)
+		if err := p.expectErr(TokenGreater); err != nil {
+			return nil, err
+		}
 	}
 
 	if !p.check(TokenIdent) {
@@ -773,7 +777,9 @@ func (p *Parser) typeSpec() (Type, *ParseError) {
 					break
 				}
 			}
-			p.expect(TokenGreater)
+			if err := p.expectErr(TokenGreater); err != nil {
+				return nil, err
+			}
 		}
 
 		return namedType, nil
@@ -1628,7 +1634,9 @@ func (p *Parser) postfix() (Expr, *ParseError) {
 					break
 				}
 			}
-			p.expect(TokenRightParen)
+			if err := p.expectErr(TokenRightParen); err != nil {
+				return nil, err
+			}
 
 			if ident, ok := expr.(*Ident); ok {
 				expr = &CallExpr{
@@ -1647,7 +1655,9 @@ func (p *Parser) postfix() (Expr, *ParseError) {
 			if err != nil {
 				return nil, err
 			}
-			p.expect(TokenRightBracket)
+			if err := p.expectErr(TokenRightBracket); err != nil {
+				return nil, err
+			}
 			expr = &IndexExpr{
 				Expr:  expr,
 				Index: index,
@@ -1811,17 +1821,6 @@ func (p *Parser) match(kind TokenKind) bool {
 		return true
 	}
 	return false
-}
-
-func (p *Parser) expect(kind TokenKind) {
-	if p.check(kind) {
-		p.advance()
-		return
-	}
-	// Handle >> splitting: when expecting >, accept >> and split it
-	if kind == TokenGreater && p.check(TokenGreaterGreater) {
-		p.splitGreaterGreater()
-	}
 }
 
 func (p *Parser) expectErr(kind TokenKind) *ParseError {
